@@ -42,6 +42,9 @@ def _alarm(signum, frame):
 def _worker_init():
     logging.disable(logging.CRITICAL)
     signal.signal(signal.SIGINT, signal.SIG_IGN)
+    from mc.core import guard
+
+    guard.install()
 
 
 def _run_shard(args):
@@ -55,8 +58,12 @@ def _run_shard(args):
         res["_ok"] = True
     except ShardTimeout:
         res = {"_ok": False, "_err": "Hang: shard %r exceeded %ss" % (shard, limit), "_hang": True}
-    except Exception:
-        res = {"_ok": False, "_err": traceback.format_exc()}
+    except Exception as e:
+        if type(e).__name__ == "HandshakeFailed":
+            # the library under test could not even bring a client and a server together: a finding, not a harness error
+            res = {"_ok": True, "violations": [{"clause": "handshake-failed", "disc": "client-start", "what": str(e), "replay": {"_shard": list(shard) if isinstance(shard, tuple) else shard}}]}
+        else:
+            res = {"_ok": False, "_err": traceback.format_exc()}
     finally:
         signal.setitimer(signal.ITIMER_REAL, 0)
     res["_wall"] = time.time() - t0
@@ -251,13 +258,17 @@ def main(argv=None):
             "KNOWN-FINDING: property=%s %s%s [%s] x%d"
             % (prop, (f.get("id", "") + " ") if f.get("id") else "", f.get("what", ""), "; ".join("%s / %s" % (v["clause"], v["disc"]) for v in vs), sum(v["count"] for v in vs))
         )
+    from mc.core import guard as _guard
+
+    _guard.install()
     # determinism: before a violation is reported, its replay (straight-line, without the explorer) must fail again
     confirmed = 0
     tried = 0
     for v, f in new[:4]:
         tried += 1
         try:
-            again = mod.replay(json.loads(json.dumps(v["replay"], default=repr)))
+            rp = json.loads(json.dumps(v["replay"], default=repr))
+            again = _replay_shard(mod, rp["_shard"]) if isinstance(rp, dict) and "_shard" in rp else mod.replay(rp)
         except Exception as e:  # noqa
             again = None
             sys.stderr.write("replay of %s / %s raised %r\n" % (v["clause"], v["disc"], e))
@@ -277,20 +288,44 @@ def main(argv=None):
     if vac:
         for e in vac:
             print("VACUITY-GUARD: " + e)
-        return 2
+        if not new:
+            return 2  # a silent run that explored too little proves nothing
     return 1 if new else 0
 
 
 def _worker_init_serial():
     logging.disable(logging.CRITICAL)
+    from mc.core import guard
+
+    guard.install()
+
+
+def _tuplify(x):
+    return tuple(_tuplify(i) for i in x) if isinstance(x, list) else x
+
+
+def _replay_shard(mod, shard):
+    try:
+        r = mod.run_shard(_tuplify(shard))
+    except Exception as e:
+        if type(e).__name__ == "HandshakeFailed":
+            return [{"clause": "handshake-failed", "disc": "client-start", "what": str(e)}]
+        raise
+    return [{"clause": v["clause"], "disc": v["disc"], "what": v.get("what", "")} for v in r.get("violations", [])]
 
 
 def do_replay(mod, prop, path):
+    from mc.core import guard
+
+    guard.install()
     with open(path) as f:
         rep = json.load(f)
     obs = []
     for i in range(2):
-        vs = mod.replay(rep["replay"])
+        if isinstance(rep["replay"], dict) and "_shard" in rep["replay"]:
+            vs = _replay_shard(mod, rep["replay"]["_shard"])
+        else:
+            vs = mod.replay(rep["replay"])
         obs.append(json.dumps([(v["clause"], v["disc"], v.get("what", "")) for v in vs], sort_keys=True, default=repr))
     import re
 
